@@ -73,6 +73,30 @@ def _zero_names(f: FuncInfo, depth: int = 0) -> Set[str]:
                     if isinstance(t, ast.Subscript):
                         pass
             # chained `zero = cache[key] = semiring.from_int(0)`
+    # names given to value-preserving views of the zero (`zero_item = zero.item()`): every binding of the name must be one
+    changed = True
+    while changed:
+        changed = False
+        binds: Dict[str, List[ast.AST]] = {}
+        for n in own_nodes(f.node):
+            if isinstance(n, ast.Assign) and len(n.targets) == 1 and isinstance(n.targets[0], ast.Name):
+                binds.setdefault(n.targets[0].id, []).append(n.value)
+            elif isinstance(n, ast.Name) and isinstance(n.ctx, ast.Store):
+                binds.setdefault(n.id, [])
+        stores: Dict[str, int] = {}
+        for n in own_nodes(f.node):
+            if isinstance(n, ast.Name) and isinstance(n.ctx, ast.Store):
+                stores[n.id] = stores.get(n.id, 0) + 1
+
+        def view_of_zero(v: ast.AST) -> bool:
+            if isinstance(v, ast.Name):
+                return v.id in out
+            if isinstance(v, ast.Call) and isinstance(v.func, ast.Attribute) and v.func.attr in ('item', 'clone', 'detach', 'to') and not (v.func.attr != 'to' and v.args):
+                return view_of_zero(v.func.value)
+            return False
+        for name, vals in binds.items():
+            if name not in out and vals and len(vals) == stores.get(name, 0) and all(view_of_zero(v) for v in vals):
+                out.add(name); changed = True
     return out
 
 
